@@ -219,6 +219,25 @@ func checkC03(c *mc.Ctx) {
 				b[off] = m(b[off])
 				return b
 			}, bound: "every byte offset x {0x00,0xFF,0x47,^0x01,^0x80,+1,-1}"})
+		if c.Thorough() {
+			// two deviations inside a sliding 16-byte window
+			nm := len(muts)
+			fams = append(fams, c03Family{name: "mutate2:" + st.Name, n: int64(len(st.Bytes)) * 15 * int64(nm*nm), cfgs: []c03Cfg{{188, "seek", "data", "none"}, {188, "plain", "packet", "none"}, {0, "bufio", "data", "none"}, {0, "seek", "packet", "skipper"}},
+				gen: func(i int64) []byte {
+					b := append([]byte{}, st.Bytes...)
+					m2 := muts[i%int64(nm)]
+					i /= int64(nm)
+					m1 := muts[i%int64(nm)]
+					i /= int64(nm)
+					d := int(i%15) + 1
+					off := int(i / 15)
+					b[off] = m1(b[off])
+					if off+d < len(b) {
+						b[off+d] = m2(b[off+d])
+					}
+					return b
+				}, bound: "every byte offset x every second offset within the next 15 bytes x 7x7 mutation classes"})
+		}
 		fams = append(fams, c03Family{name: "truncate:" + st.Name, n: int64(len(st.Bytes) + 1), cfgs: c03Cfgs([]int{0, 188}, true),
 			gen: func(i int64) []byte { return st.Bytes[:i] }, bound: "truncation at every offset"})
 		for _, k := range []int{1, 4, 16, 188} {
